@@ -142,15 +142,33 @@ CHECKS = {
             "sbxb_width_overflow_nan (the magnitude hypothesis is necessary: an overflowing width gives nan, as the real code does for "
             "low=-1e308, up=1e308), C10.lawful_exists. In the standard model of floating-point error C10.blend_sum_rounded / esblend_sum_rounded "
             "(|c1+c2-(x1+x2)| <= 6u(|x1|+|x2|)(1+|gamma|)+5nu) and sbx_sum_rounded (5u(|x1|+|x2|)(1+|beta|)+5nu) turn the oracle's sum tolerance "
-            "into a proved bound, which the oracle evaluates exactly over the rationals with u=2^-53, nu=2^-1075. Core/RealOps.lean keeps the "
+            "into a proved bound, which the oracle evaluates exactly over the rationals with u=2^-53, nu=2^-1075; likewise the blend RANGE clause: "
+            "C10.blend_range_rounded / esblend_range_rounded (children inside [min - alpha*w - E, max + alpha*w + E], E = (7/2 u (2+alpha+Eg) + Eg)"
+            "(|x1|+|x2|) + 9/4 nu, Eg = 6u(1+2alpha) + 4nu = error of the computed gamma; C10.blendRangeErr_binary64: E <= 45u(|x1|+|x2|) + "
+            "5nu(1+|x1|+|x2|) for alpha <= 2), which replaces the oracle's former 1e-9 tolerance (evaluated exactly over the rationals). "
+            "Unbounded SBX in the rounded semantics: C10.sbx_rounded(_locus) (eta >= 0, draw in [0, top], magnitudes leaving room for the spread "
+            "factor - binary64: genes up to 4.9e291 - : no zero divisor, negative base, overflow or inf-inf; both children finite). "
+            "ES mutations in the rounded semantics: C10.gauss_len_rounded, gauss_indpb0_rounded, lognormal_len_rounded, lognormal_indpb0_rounded "
+            "(the decision random() < 0.0 as a float comparison), and the EXACT BOUNDARY of 'positive strategies stay positive': "
+            "C10.lognormal_pos_rounded(_locus) under the decidable hypothesis lognMag (strategy s > 0, exponent argument a <= 709, "
+            "k <= 1074 with -0.693k <= a, s*2^-k >= 2^-1074; any arithmetic with monotone exact-on-representables rounding whose exp is finite up to "
+            "expmax and satisfies exp(x) >= 2^-k for x >= -0.693k) the new strategy is >= the smallest positive number; beyond it the clause is false "
+            "for floats: C10.lognormal_underflow_zero (product rounds to 0: the positive strategy becomes 0.0) and C10.lognormal_overflow_raises "
+            "(OverflowError), both reproduced on the real code by the stream xlogn, which probes both sides of the boundary (Lean-evaluated "
+            "hypothesis vs independent evaluation; hypothesis holds => real strategy > 0; outside nothing is demanded: recorded reading); "
+            "C10.lawful_exp_exists. A HISTORY stream runs 3-6 consecutive calls of the bounded operators sharing ONE low / up list (or array) object "
+            "edited in place between the calls (also fresh objects, tuples, scalars, other sizes), each call judged against and replayed with the "
+            "bounds' contents at that call. Core/RealOps.lean keeps the "
             "Python operation order; its Float instance replays the real operators draw by draw (tolerance 1e-9, NaN for NaN) on a boundary-draw "
             "grid, random inputs and an extreme-magnitude stream (widths 1e-300..1.8e308, eta up to 1e300, draws next to 0 and 1) on which the "
             "Lean-evaluated theorem hypotheses are compared with an independent evaluation and the theorems' conclusion is evaluated on the real "
             "result; the statement is evaluated on the real results (isfinite, not complex, bounds exact, sums within the proved bound, "
             "strategies > 0).",
             TB + "partial because: that CPython's binary64 arithmetic and libm pow satisfy the laws of the rounded semantics (monotone rounding, "
-            "monotone sign-correct pow) and the standard error model is trusted and probed, not proved; the ES mutations (exp underflow can zero a "
-            "strategy for c >= ~61 or subnormal strategies, OverflowError of exp) and the blend range clause have no rounded theorem; "
+            "monotone sign-correct pow, exp finite up to 709 and >= 2^-k from -0.693k on) and the standard error model is trusted and probed, not "
+            "proved; the ES clause 'positive strategies stay positive' holds for floats only inside the proved boundary (outside: exp underflow "
+            "zeroes a strategy for c >= ~61 or subnormal strategies, OverflowError of exp - recorded reading); the rounded theorems for unbounded "
+            "SBX take the representable caps C, P as parameters (no binary64 instance of Arith is constructed); "
             "libm agreement CPython/Lean Float; random.gauss(mu,sigma)=mu+z*sigma; the two individuals of a crossover are distinct objects; "
             "magnitudes: width xu-xl and parent sum x1+x2 finite doubles (else nan genes, recorded reading).",
             "Lean 4 proof over a RealLike-polymorphic model + forced-tape differential correspondence (Float) + oracle"),
